@@ -168,6 +168,47 @@ class Check:
             json.dump(ev, f, indent=1, default=str)
 
 
+class AliasedCheck:
+    """View of a Check through which another property's rule set records its obligations under this property's rule ids.
+    `mapping` maps foreign rule ids to local ones; obligations of unmapped rules are dropped (they are claimed elsewhere)."""
+
+    def __init__(self, chk: "Check", mapping: dict):
+        self._c, self._m = chk, dict(mapping)
+        self.pid, self.tier, self.repo, self.title = chk.pid, chk.tier, chk.repo, chk.title
+        self.extra: dict = {}
+        self.analysed = chk.analysed
+
+    def rule(self, rid, text):
+        pass
+
+    def ok(self, rule, site, what):
+        if rule in self._m:
+            self._c.ok(self._m[rule], site, what)
+
+    def bad(self, rule, site, function, tag, detail, witness):
+        if rule in self._m:
+            self._c.bad(self._m[rule], site, function, tag, detail, witness)
+
+    def unknown(self, rule, site, why):
+        if rule in self._m:
+            self._c.unknown(self._m[rule], site, why)
+
+    def require(self, rule, site, cond, what, function="", tag="", witness=""):
+        if rule in self._m:
+            return self._c.require(self._m[rule], site, cond, what, function, tag, witness)
+        return cond
+
+    def floor(self, rule, n, minimum, what):
+        if rule in self._m:
+            self._c.floor(self._m[rule], n, minimum, what)
+
+    def sample(self, s):
+        pass
+
+    def assume(self, *a):
+        pass
+
+
 def load_known() -> list:
     if not os.path.exists(KNOWN_FILE):
         return []
